@@ -78,3 +78,12 @@ Theorem C18_library_valid_passes_schema : forall s,
   validate_spec s = Ok tt -> in_go_ranges s -> timeouts_ok s -> validate builtin (doc_of_spec s) = true.
 Proof. exact library_valid_passes_schema. Qed.
 Print Assumptions C18_library_valid_passes_schema.
+
+(* every member the shipped schema requires of an object is written by the encoder of the Go struct the object is decoded into,
+   under the same name in both encodings and also when empty: the in-memory route (Validate(spec), on the re-encoded value)
+   sees the members the other routes see in the document.  Re-checked against both regenerated fragments on every run. *)
+From CDI Require Import SchemaLayoutTie.
+Theorem C18_required_members_always_encoded :
+  forallb (fun p => required_kept (fst p) (snd p)) object_structs = true.
+Proof. exact required_members_always_encoded. Qed.
+Print Assumptions C18_required_members_always_encoded.
